@@ -84,7 +84,7 @@ var checks = map[string]checkSpec{
 		extra: []leg{{repoDir, "./internal/upload", "TestVerifC05Upload", 8}}},
 	"C10": {modDir: repoDir, pkg: "./internal/counter", test: "TestVerifC10", quickS: 150, thoroS: 1200, gomaxp: "2", floor: 100000, minClass: 6},
 	"C06": {modDir: repoDir, pkg: "./internal/counter", test: "TestVerifC06", quickS: 120, thoroS: 900, gomaxp: "2", floor: 10000, minClass: 4},
-	"C04": {modDir: repoDir, pkg: "./internal/counter", test: "TestVerifC04", quickS: 240, thoroS: 3300, gomaxp: "2", floor: 1000, minClass: 5},
+	"C04": {modDir: repoDir, pkg: "./internal/counter", test: "TestVerifC04", quickS: 240, thoroS: 6000, gomaxp: "2", floor: 1000, minClass: 5},
 	"C03": {modDir: repoDir, pkg: "./internal/counter", test: "TestVerifC03", quickS: 240, thoroS: 1500, gomaxp: "2", floor: 1000, minClass: 5},
 }
 
